@@ -21,12 +21,12 @@ RULE = ("programs and templates from the script generator (argument-less operati
         "is_template} interleaved with mutations of returned instances (append/replace operations, in-place array writes, list/option/variable/"
         "mode edits); non-trivial = history with >=3 kinds of read-only operation and (an instance mutation or a graph conversion of a "
         "program with an argument-less operation); distinct by SHA-1 of script+history")
-BUDGET = {"quick": 1500, "thorough": 20000}
+BUDGET = {"quick": 1000, "thorough": 16000}
 MIN_NONTRIVIAL = {"quick": 300, "thorough": 3000}
 REQUIRED_FUNCTIONS = ["program.py:BlackbirdProgram.serialize", "program.py:BlackbirdProgram.__call__", "utils.py:to_DiGraph", "utils.py:match_template"]
 FUNCTIONS = REQUIRED_FUNCTIONS
 REQUIRED_HOOKS = ["serialize", "__call__", "to_DiGraph", "match_template"]
-REQUIRED_TAGS = ["op:dumps", "op:call", "op:to_DiGraph", "op:match_template", "op:reads", "op:mutate-instance", "has:no-arglist", "has:array-arg", "has:list", "has:regref"]
+REQUIRED_TAGS = ["op:dumps", "op:call", "op:to_DiGraph", "op:match_template", "op:reads", "op:mutate-instance", "has:no-arglist", "has:array-arg", "has:list", "has:regref", "call:array-object"]
 ASSUMPTIONS = ["'observably unchanged' = same serialisation text (or same exception class when the program cannot be serialised) and same canonical content incl. variables and parameter list",
                "mutations are applied to returned instances only, never to the template itself"]
 
@@ -164,13 +164,21 @@ def check_case(ctx, text, seed_key):
     import blackbird
     from blackbird.utils import to_DiGraph, match_template
 
+    # the property speaks about programs: every script that loads is used, whether or not the reference
+    # interpreter covers it (e.g. registers inside list arguments); the reference only supplies feature tags
     kind = common.classify(text)
-    if kind[0] != "ok":
-        return ctx.out_of_domain("script not valid/in domain (%s)" % kind[0])
-    ref = kind[1]
+    if kind[0] in ("nosentence", "refbug"):
+        return ctx.out_of_domain("script not grammatical")
     P, exc = common.real_loads(text)
     if exc is not None:
         return ctx.out_of_domain("script does not load (other properties' business)")
+
+    class _NoRef:
+        features = set()
+
+    ref = kind[1] if kind[0] == "ok" else _NoRef()
+    if kind[0] != "ok":
+        ctx.observe("program outside the reference's domain, used all the same")
     rng = ctx.rng("hist", seed_key)
     tags = set()
     if "no-arglist" in ref.features:
@@ -186,6 +194,8 @@ def check_case(ctx, text, seed_key):
     del Rec.pairs[:]
     instances = []
     inst_digests = []
+    shared_arrays = {}
+    caller_digest = lambda: json.dumps({repr(k_): v_.tolist() for k_, v_ in shared_arrays.items()})
     hist = []
     n = rng.randint(5, 40)
     witness = {"text": text, "history": hist}
@@ -208,6 +218,22 @@ def check_case(ctx, text, seed_key):
                 vals = {}
                 for p_ in params:
                     vals[p_] = rng.choice([-1, 1]) * round(rng.uniform(0.3, 3), 3)
+                # whole-array parameters (names X_i_j) may also be given as one 2-D array object, reused between calls
+                import re as _re
+
+                groups = {}
+                for p_ in params:
+                    m_ = _re.fullmatch(r"(\w+?)_(\d+)_(\d+)", p_)
+                    if m_:
+                        groups.setdefault(m_.group(1), []).append((int(m_.group(2)), int(m_.group(3))))
+                for gname, idxs in groups.items():
+                    r_, c_ = max(i for i, _ in idxs) + 1, max(j for _, j in idxs) + 1
+                    if len(idxs) == r_ * c_ and gname not in params and rng.random() < 0.7:
+                        arr = shared_arrays.setdefault((gname, r_, c_), np.arange(1, r_ * c_ + 1, dtype=float).reshape(r_, c_) / 4)
+                        for (i, j) in idxs:
+                            vals.pop("%s_%d_%d" % (gname, i, j), None)
+                        vals[gname] = arr if rng.random() < 0.7 else arr.tolist()
+                        tags.add("call:array-object")
                 # whole-array parameters are given element-wise (name_i_j), which __call__ accepts as plain names
                 inst = P(**vals)
                 ids_t = content.alias_ids(P)
@@ -221,6 +247,10 @@ def check_case(ctx, text, seed_key):
                         return ctx.violation("instances-alias-each-other", "two instances share a mutable object", witness)
                 instances.append(inst)
                 inst_digests.append(digest(inst))
+                for arr_ in shared_arrays.values():
+                    for v_ in inst.variables.values():
+                        if isinstance(v_, np.ndarray) and np.shares_memory(v_, arr_):
+                            return ctx.violation("instance-shares-memory-with-caller-array", "a variable of an instance is a view of the array object passed as the parameter value", witness)
             elif op == "match_template":
                 k = rng.randrange(len(instances))
                 try:
@@ -295,6 +325,14 @@ def run(ctx):
         except RuntimeError:
             ctx.out_of_domain("generator gave up")
             continue
+        c_ = rng.random()
+        if c_ < 0.12:
+            from . import c04
+
+            text, _, _ = c04.add_whole_array(rng, text, g)
+        elif c_ < 0.2:
+            # registers inside a list-valued keyword argument (the loader leaves them symbolic)
+            text = text.rstrip("\n") + "\nGate(0.3, weights=[q0, 0.5, 2*q1], k=q2) | 2\nVac | 0\n"
         check_case(ctx, text, i)
     undo()
 
